@@ -30,6 +30,7 @@ LEAVES = [
     ("chain", ("opt", "A", ("opt", "B")), "h", [A2, B3]),
     ("dsdef", ("opt", "A", ("ds", "inner", {"params": [("opt", "B")]})), "h", [A2, B3]),
     ("tmplval", ("opt", "A"), "h", [("A", [ABSENT, 1, "{B}"]), B3]),
+    ("tmplval_def", ("opt", "A", ("val", 7)), "h", [("A", [ABSENT, "{B}"]), B3]),
     ("tmplval2", ("opt", "A"), "h", [("A", ["{B}"]), ("B", [1, "{C}", "x{C}"]), ("C", [ABSENT, 1, 2])]),
     ("tmplval_list", ("opt", "A"), "j", [("A", [ABSENT, ["{B}"]]), B3]),
     ("tmplval_sect", ("opt", "A"), "j", [("A", [ABSENT, {"K": "{B}"}]), B3]),
